@@ -12,7 +12,8 @@ pub const RULE: &str = "case = one logical input (routine, DIMS, mask, value, a,
 guard-flush placement, poison byte 0xA5 around the slices and result pre-filled with 0xC3..; then an unrelated \
 call of the same routine on other data (every fourth time: all zeros) in the same arenas (interleaving; for const-dimension entry points the call goes \
 to the same entry point instantiated at another DIMS); run 2 with different byte alignments \
-of every slice (derived from the case hash), poison byte 0x3C and result pre-filled with 0x5A... The two outcomes \
+of every slice (derived from the case hash), poison byte 0x3C and result pre-filled with 0x5A.. (a share of the \
+two-input cases has equal contents in `a` and `b`; run 2 then passes one slice for both). The two outcomes \
 (value / whole result vector / panic) must be bit-identical (floats included; same backend), which also proves \
 every result element is overwritten; inputs must be unchanged bit for bit; canaries intact; every call must return \
 with the floating-point control word (x86-64 MXCSR rounding / flush-to-zero / denormals-are-zero / mask bits) it was \
@@ -190,6 +191,9 @@ fn check<T: Elem>(c: &VecCall<T>, ar: &mut Arenas, sib: &Option<crate::elem::Rou
     }
     c2.poison = 0x3C;
     c2.prefill = 0x5A5A_5A5A_5A5A_5A5A;
+    // when the two inputs have the same contents, the second run hands the routine one slice for both
+    let same_contents = c.uses_b() && c.a.len() == c.b.len() && (0..c.a.len()).all(|i| c.a[i].to_bits() == c.b[i].to_bits());
+    c2.alias_b = same_contents;
     let e2 = c2.exec(ar);
     if let Some((b, a)) = e2.fp_env {
         return leaked_fp_env(c, ar, "this call", b, a);
@@ -235,8 +239,10 @@ fn check<T: Elem>(c: &VecCall<T>, ar: &mut Arenas, sib: &Option<crate::elem::Rou
                     .into()
             } else {
                 format!(
-                    "run 1: placement {:?}, poison 0xA5; run 2: placement {:?}, poison 0x3C",
-                    c1.place, c2.place
+                    "run 1: placement {:?}, poison 0xA5; run 2: placement {:?}, poison 0x3C{}",
+                    c1.place,
+                    c2.place,
+                    if c2.alias_b { "; in run 2 `a` and `b` are the same slice (run 1: two copies of the same contents)" } else { "" }
                 )
             },
         });
@@ -304,7 +310,12 @@ fn one_target<T: Elem>(ctx: &mut Ctx, t: Target<T>) {
             };
             let a: Vec<T> = (0..len).map(|_| gen(&mut rng, false)).collect();
             let b: Vec<T> = if kind_uses_b(t.r.kind()) {
-                (0..len).map(|_| gen(&mut rng, true)).collect()
+                if rep % 4 == 2 || (reps == 2 && len % 3 == 1 && rep == 1) {
+                    // same contents in both inputs (then also passed as one shared slice, see `check`)
+                    a.iter().map(|x| if int_div && *x == T::zero() { T::one() } else { *x }).collect()
+                } else {
+                    (0..len).map(|_| gen(&mut rng, true)).collect()
+                }
             } else {
                 Vec::new()
             };
